@@ -62,7 +62,9 @@ def build_harness(kind):
 def drive(binary, scenario, seed, tier, out, extra=(), timeout=3600):
     cmd = [binary, scenario, "--seed", str(seed), "--tier", tier, "--out", out, *extra]
     t0 = time.time()
-    rc, o = sh(cmd, timeout)
+    scratch = os.path.join(WORK, "scratch")
+    os.makedirs(scratch, exist_ok=True)
+    rc, o = sh(cmd, timeout, env={"FQV_SCRATCH": scratch})
     if rc != 0:
         raise ToolError(f"driver {scenario} failed (rc={rc}): {o[-2000:]}")
     log(f"[drive] {scenario} seed={seed} tier={tier}: {time.time()-t0:.1f}s")
